@@ -79,6 +79,9 @@ func (ex *Exec) convertAssign(v Value, to types.Type, st *State) Value {
 	if to == nil {
 		return v
 	}
+	if _, isNil := v.(*NilLit); isNil {
+		return ex.zeroValue(to)
+	}
 	if _, isIface := to.Underlying().(*types.Interface); isIface {
 		switch x := v.(type) {
 		case *IfaceV, *OpaqueV:
@@ -114,9 +117,7 @@ func (ex *Exec) eval(e ast.Expr, st *State) Value {
 		if !ok {
 			unsupported("dereference of %T at %s", p, ex.pos(e.Pos()))
 		}
-		if pv.Nil {
-			ex.assert(st, "safety.nil", ex.ts.False(), e.Pos(), "nil dereference")
-			st.pc = ex.ts.False()
+		if !ex.checkNil(st, pv, e.Pos()) {
 			return ex.zeroValue(ex.typeOf(e))
 		}
 		return ex.getPath(ex.load(st, pv.Loc), pv.Path, st, e.Pos())
@@ -152,6 +153,9 @@ func (ex *Exec) evalIdent(e *ast.Ident, st *State) Value {
 	switch o := obj.(type) {
 	case *types.Nil:
 		t := ex.typeOf(e)
+		if b, ok := t.(*types.Basic); ok && b.Kind() == types.UntypedNil {
+			return &NilLit{}
+		}
 		return ex.zeroValue(t)
 	case *types.Var:
 		if l := ex.cur().env.Lookup(o); l != nil {
@@ -192,7 +196,11 @@ func (ex *Exec) evalSelector(e *ast.SelectorExpr, st *State) Value {
 	switch sel.Kind() {
 	case types.FieldVal:
 		base := ex.eval(e.X, st)
-		return ex.fieldPath(base, sel.Index(), st, e.Pos())
+		v := ex.fieldPath(base, sel.Index(), st, e.Pos())
+		if v == nil && st.pc.IsFalse() {
+			return ex.zeroValue(ex.typeOf(e))
+		}
+		return v
 	case types.MethodVal:
 		fn := sel.Obj().(*types.Func)
 		recv := ex.methodRecv(e.X, sel, st)
@@ -208,11 +216,8 @@ func (ex *Exec) fieldPath(base Value, idx []int, st *State, p token.Pos) Value {
 	v := base
 	for _, i := range idx {
 		if pv, ok := v.(*PtrV); ok {
-			if pv.Nil {
-				ex.assert(st, "safety.nil", ex.ts.False(), p, "nil dereference")
-				st.pc = ex.ts.False()
-				unsupportedIfLive(st, "nil field access")
-				return nil
+			if !ex.checkNil(st, pv, p) {
+				return ex.deadValue
 			}
 			v = ex.getPath(ex.load(st, pv.Loc), pv.Path, st, p)
 		}
@@ -260,9 +265,7 @@ func (ex *Exec) methodRecv(x ast.Expr, sel *types.Selection, st *State) Value {
 		p := ex.eval(x, st)
 		switch pv := p.(type) {
 		case *PtrV:
-			if pv.Nil {
-				ex.assert(st, "safety.nil", ex.ts.False(), x.Pos(), "nil receiver")
-				st.pc = ex.ts.False()
+			if !ex.checkNil(st, pv, x.Pos()) {
 				return ex.zeroValue(sig.Recv().Type())
 			}
 			return ex.getPath(ex.load(st, pv.Loc), pv.Path, st, x.Pos())
@@ -293,7 +296,6 @@ func (ex *Exec) boundsCheck(st *State, idx *Term, n int, p token.Pos) {
 	}
 	ok := ex.ts.BVCmp(OpBVUlt, idx, ex.ts.BV(uint64(n), 64))
 	ex.assert(st, "safety.index", ok, p, "index in range [0,"+itoa(n)+")")
-	st.pc = ex.ts.And(st.pc, ok)
 }
 
 func (ex *Exec) evalIndex(e *ast.IndexExpr, st *State) Value {
@@ -508,12 +510,18 @@ func (ex *Exec) joinInto(st *State, guard *Term, s2 *State) {
 	}
 	// s2.pc may have been strengthened by in-range assumptions: keep pc = (guard ∧ s2.pc) ∨ (¬guard ∧ pc)
 	if s2.pc != ex.ts.And(st.pc, guard) {
-		st.pc = ex.ts.Or(s2.pc, ex.ts.And(st.pc, ex.ts.Not(guard)))
+		st.pc = ex.ts.OrPC(s2.pc, ex.ts.And(st.pc, ex.ts.Not(guard)))
 	}
 }
 
 func (ex *Exec) binop(op token.Token, x, y Value, xt, yt types.Type, st *State, p token.Pos) Value {
 	ts := ex.ts
+	if _, isNil := x.(*NilLit); isNil {
+		x = ex.zeroValue(yt)
+	}
+	if _, isNil := y.(*NilLit); isNil {
+		y = ex.zeroValue(xt)
+	}
 	switch op {
 	case token.EQL:
 		return ex.eqValue(x, y)
@@ -583,7 +591,6 @@ func (ex *Exec) binop(op token.Token, x, y Value, xt, yt types.Type, st *State, 
 			if !(b.Op == OpConst && signExt(b.BV, b.Sort.W) >= 0) {
 				ok := ts.BVCmp(OpBVSle, ts.BV(0, b.Sort.W), b)
 				ex.assert(st, "safety.shift", ok, p, "shift count non-negative")
-				st.pc = ts.And(st.pc, ok)
 			}
 		}
 		var cnt *Term
@@ -619,7 +626,6 @@ func (ex *Exec) binop(op token.Token, x, y Value, xt, yt types.Type, st *State, 
 		nz := ts.Not(ts.Eq(b, ts.BV(0, w)))
 		if !nz.IsTrue() {
 			ex.assert(st, "safety.div", nz, p, "divisor non-zero")
-			st.pc = ts.And(st.pc, nz)
 		}
 		switch {
 		case op == token.QUO && signed:
@@ -829,9 +835,7 @@ func (ex *Exec) lvalue(e ast.Expr, st *State) LV {
 			pv := ex.eval(e.X, st)
 			switch p := pv.(type) {
 			case *PtrV:
-				if p.Nil {
-					ex.assert(st, "safety.nil", ex.ts.False(), e.Pos(), "nil dereference")
-					st.pc = ex.ts.False()
+				if !ex.checkNil(st, p, e.Pos()) {
 					l := ex.newLoc("nil", xt.Underlying().(*types.Pointer).Elem())
 					st.store[l] = ex.zeroValue(l.Typ)
 					p = &PtrV{Loc: l}
@@ -896,12 +900,10 @@ func (ex *Exec) lvalue(e ast.Expr, st *State) LV {
 		}
 	case *ast.StarExpr:
 		pv := ex.eval(e.X, st)
-		if p, ok := pv.(*PtrV); ok && !p.Nil {
+		if p, ok := pv.(*PtrV); ok && ex.checkNil(st, p, e.Pos()) {
 			return LV{Loc: p.Loc, Path: p.Path}
 		}
-		if p, ok := pv.(*PtrV); ok && p.Nil {
-			ex.assert(st, "safety.nil", ex.ts.False(), e.Pos(), "nil dereference")
-			st.pc = ex.ts.False()
+		if _, ok := pv.(*PtrV); ok {
 			l := ex.newLoc("nil", ex.typeOf(e))
 			st.store[l] = ex.zeroValue(l.Typ)
 			return LV{Loc: l}
